@@ -21,6 +21,7 @@
 unsigned char g_lbyte;      /* the byte L holds at g_pos, for the first g_hlen bytes */
 unsigned long g_hlen;       /* arbitrary: how much of L the name g_lbyte covers */
 unsigned long g_clk_prev;   /* value of the last-but-one clock read */
+unsigned long g_clk_prev2;  /* and the one before that */
 
 #define L_LEN   (g_file_len + rthread.evlen)
 #define L_BYTE  ((g_pos < g_file_len) ? g_byte : rthread.evbuf[g_pos - g_file_len])
@@ -194,9 +195,9 @@ void h_ovni_payload_add_dies(void)
  * monotonicity is a multiplication fact no installed back end decides). */
 uint64_t cr_ovni_clock_now(void)
 __CPROVER_requires(g_now < (1UL << 62))
-__CPROVER_assigns(g_now, g_clk_prev, g_died)
+__CPROVER_assigns(g_now, g_clk_prev, g_clk_prev2, g_died)
 __CPROVER_ensures(__CPROVER_return_value == g_now && g_now >= __CPROVER_old(g_now) && g_now < (1UL << 62))
-__CPROVER_ensures(g_clk_prev == __CPROVER_old(g_now))
+__CPROVER_ensures(g_clk_prev == __CPROVER_old(g_now) && g_clk_prev2 == __CPROVER_old(g_clk_prev))
 ;
 
 /* byte k of a flush marker event {flags=0,'O','F',v, clock t (little endian)} */
@@ -236,14 +237,14 @@ __CPROVER_requires(g_file_len < (1UL << 61) || !EA_WILLFLUSH) \
 __CPROVER_requires(HINV) \
 __CPROVER_assigns(rthread.evlen, g_died) \
 __CPROVER_assigns(!EA_WILLFLUSH: __CPROVER_object_upto(rthread.evbuf + rthread.evlen, EA_SZ)) \
-__CPROVER_assigns(EA_WILLFLUSH: g_file_len, g_byte, g_now, g_clk_prev, __CPROVER_object_upto(rthread.evbuf, EA_SZ + 24)) \
+__CPROVER_assigns(EA_WILLFLUSH: g_file_len, g_byte, g_now, g_clk_prev, g_clk_prev2, __CPROVER_object_upto(rthread.evbuf, EA_SZ + 24)) \
 __CPROVER_ensures(g_file_len + rthread.evlen == OLD_LLEN + EA_APPLEN) \
 __CPROVER_ensures(g_file_len == __CPROVER_old(g_file_len) + (EA_FLUSHED ? __CPROVER_old(rthread.evlen) : 0UL)) \
 __CPROVER_ensures(rthread.evlen < g_cap) \
 __CPROVER_ensures(!IN_APP(EA_APPLEN) || (unsigned long) L_BYTE == EA_APP(g_pos - OLD_LLEN)) \
 __CPROVER_ensures(HINV) \
 /* clocks: markers carry the two clock reads taken around the flush */ \
-__CPROVER_ensures(!EA_FLUSHED || (__CPROVER_old(g_now) <= g_clk_prev && g_clk_prev <= g_now && g_now < (1UL << 62)))
+__CPROVER_ensures(!EA_FLUSHED || (__CPROVER_old(g_now) <= g_clk_prev && g_clk_prev <= g_now && g_now < (1UL << 62) && g_clk_prev2 == __CPROVER_old(g_now)))
 
 void cr_ovni_ev_add(struct ovni_ev *ev)
 EA_CONTRACT
@@ -335,12 +336,12 @@ __CPROVER_ensures(!OBS_IN(dst, n) || rthread.evbuf[g_pos - g_file_len] ==
 	(r) < JB_TOTAL + 12 ? MARK_BYTE((r) - JB_TOTAL, '[', g_clk_prev) : MARK_BYTE((r) - JB_TOTAL - 12, ']', g_now))
 #define JB_CONTRACT \
 RT_WF_REQ \
-__CPROVER_requires(EV_OK(ev) && !(ev->header.flags & OVNI_EV_JUMBO) && (bufsize == 0 || __CPROVER_is_fresh(buf, bufsize))) \
+__CPROVER_requires(EV_OK(ev) && !(ev->header.flags & OVNI_EV_JUMBO) && bufsize <= (unsigned long) REAL_MAX_EV_BUF && (bufsize == 0 || __CPROVER_is_fresh(buf, bufsize))) \
 __CPROVER_requires(g_file_len < (1UL << 61)) \
 __CPROVER_requires(HINV) \
 __CPROVER_assigns(rthread.evlen, g_died, ev->header.flags, ev->payload) \
 __CPROVER_assigns(!JB_WILLFLUSH: __CPROVER_object_upto(rthread.evbuf + rthread.evlen, JB_TOTAL)) \
-__CPROVER_assigns(JB_WILLFLUSH: g_file_len, g_byte, g_now, g_clk_prev) \
+__CPROVER_assigns(JB_WILLFLUSH: g_file_len, g_byte, g_now, g_clk_prev, g_clk_prev2) \
 __CPROVER_assigns(JB_WILLFLUSH && JB_TOTAL + 24 < g_cap: __CPROVER_object_upto(rthread.evbuf, JB_TOTAL + 24)) \
 __CPROVER_ensures((__CPROVER_old(ev->header.flags) & 0x1f) == 0 && JB_TOTAL + 24 < g_cap) \
 __CPROVER_ensures(g_file_len + rthread.evlen == OLD_LLEN + JB_APPLEN) \
@@ -374,4 +375,107 @@ void h_ovni_ev_add_jumbo(void)
 	if (w_cap == (unsigned long) REAL_MAX_EV_BUF) REACH("the real 2 MiB capacity is admitted");
 	if (g_pos >= w_flen0 + w_evlen0 + 16 && g_pos < w_flen0 + w_evlen0 + total) REACH("observer inside the jumbo data");
 	if (flushed && g_pos >= w_flen0 + w_evlen0 + total) REACH("observer on the markers after the jumbo");
+}
+
+/* --------------------------------------------------------------- public API */
+/* ovni_ev_emit / ovni_ev_jumbo_emit: the API entry points carry the same contracts */
+void c_ovni_ev_emit(struct ovni_ev *ev)
+EA_CONTRACT
+;
+void h_ovni_ev_emit(void)
+{
+	struct ovni_ev *ev;
+	ovni_ev_emit(ev);
+	REACH("ovni_ev_emit returns");
+}
+void c_ovni_ev_jumbo_emit(struct ovni_ev *ev, const uint8_t *buf, uint32_t bufsize)
+JB_CONTRACT
+;
+void h_ovni_ev_jumbo_emit(void)
+{
+	struct ovni_ev *ev; const uint8_t *buf; uint32_t bufsize;
+	ovni_ev_jumbo_emit(ev, buf, bufsize);
+	REACH("ovni_ev_jumbo_emit returns");
+}
+
+/* ovni_flush: afterwards every byte L had is in the FILE, and L has grown by exactly
+ * the pair OF[ (clock read before the write) OF] (clock read after it), which sit in
+ * the buffer; requires an initialised thread and a READY process (else dies). */
+#define FL_APP(r) ((r) < 12 ? MARK_BYTE((r), '[', g_clk_prev) : MARK_BYTE((r) - 12, ']', g_now))
+void c_ovni_flush(void)
+__CPROVER_requires(CAP_OK && FILE_PRE_N(60) && __CPROVER_is_fresh(rthread.evbuf, g_cap))
+__CPROVER_requires(rthread.evlen < g_cap && g_now < (1UL << 62))
+__CPROVER_requires(HINV)
+__CPROVER_assigns(rthread.evlen, g_died, g_file_len, g_byte, g_now, g_clk_prev, g_clk_prev2, __CPROVER_object_upto(rthread.evbuf, 24))
+__CPROVER_ensures(rthread.ready && rproc.st == ST_READY)
+__CPROVER_ensures(g_file_len == OLD_LLEN && rthread.evlen == 24)
+__CPROVER_ensures(!IN_APP(24) || (unsigned long) L_BYTE == FL_APP(g_pos - OLD_LLEN))
+__CPROVER_ensures(HINV)
+__CPROVER_ensures(__CPROVER_old(g_now) <= g_clk_prev && g_clk_prev <= g_now)
+;
+void h_ovni_flush(void)
+{
+	WITNESS_OFF(flush_evbuf);
+	ovni_flush();
+	REACH("ovni_flush returns");
+	if (g_pos >= g_file_len && g_pos < g_file_len + 24) REACH("observer on the flush markers");
+	if (g_pos < g_hlen) REACH("observer on a byte flushed to the file");
+}
+
+/* ovni_mark_push/pop/set: die iff value == 0; otherwise append exactly one event
+ * {payload 12 bytes, 'O','M',<op>, clock = a fresh clock read, i64 value, i32 type} */
+#define LE_BYTE(x, k) ((((unsigned long) (x)) >> (8 * (k))) & 0xffUL)
+#define MK_FLUSHED  (__CPROVER_old(rthread.evlen) + 24UL >= g_cap)
+#define MK_WILLFLUSH (rthread.evlen + 24UL >= g_cap)
+#define MK_CLK      (MK_FLUSHED ? g_clk_prev2 : g_now)
+#define MK_APPLEN   (24UL + (MK_FLUSHED ? 24UL : 0UL))
+#define MK_APP(r, op) ((r) == 0 ? 0x0bUL : (r) == 1 ? (unsigned long) 'O' : (r) == 2 ? (unsigned long) 'M' : (r) == 3 ? (unsigned long) (op) : \
+	(r) < 12 ? LE_BYTE(MK_CLK, (r) - 4) : (r) < 20 ? (unsigned long) ((value >> (8 * ((r) - 12))) & 0xffL) : \
+	(r) < 24 ? (unsigned long) ((type >> (8 * ((r) - 20))) & 0xff) : \
+	(r) < 36 ? MARK_BYTE((r) - 24, '[', g_clk_prev) : MARK_BYTE((r) - 36, ']', g_now))
+#define MK_CONTRACT(op) \
+__CPROVER_requires(CAP_OK && FILE_PRE_N(60) && __CPROVER_is_fresh(rthread.evbuf, g_cap)) \
+__CPROVER_requires(rthread.ready && rthread.evlen < g_cap && g_now < (1UL << 62)) \
+__CPROVER_requires(HINV) \
+__CPROVER_assigns(rthread.evlen, g_died, g_now, g_clk_prev, g_clk_prev2) \
+__CPROVER_assigns(!MK_WILLFLUSH: __CPROVER_object_upto(rthread.evbuf + rthread.evlen, 24)) \
+__CPROVER_assigns(MK_WILLFLUSH: g_file_len, g_byte, __CPROVER_object_upto(rthread.evbuf, 48)) \
+__CPROVER_ensures(value != 0) \
+__CPROVER_ensures(g_file_len + rthread.evlen == OLD_LLEN + MK_APPLEN && rthread.evlen < g_cap) \
+__CPROVER_ensures(!IN_APP(MK_APPLEN) || (unsigned long) L_BYTE == MK_APP(g_pos - OLD_LLEN, op)) \
+__CPROVER_ensures(HINV) \
+__CPROVER_ensures(MK_CLK >= __CPROVER_old(g_now) && MK_CLK <= g_now)
+
+void c_ovni_mark_push(int32_t type, int64_t value) MK_CONTRACT('[');
+void c_ovni_mark_pop(int32_t type, int64_t value) MK_CONTRACT(']');
+void c_ovni_mark_set(int32_t type, int64_t value) MK_CONTRACT('=');
+unsigned long w_mk_evlen; long w_mk_value; int w_mk_type;
+void h_ovni_mark_push(void)
+{
+	int32_t type; int64_t value;
+	ovni_mark_push(type, value);
+	REACH("ovni_mark_push returns");
+	if (g_pos >= g_file_len && g_pos - g_file_len < rthread.evlen) REACH("observer in the buffer");
+}
+void h_ovni_mark_pop(void)
+{
+	int32_t type; int64_t value;
+	ovni_mark_pop(type, value);
+	REACH("ovni_mark_pop returns");
+}
+void h_ovni_mark_set(void)
+{
+	int32_t type; int64_t value;
+	ovni_mark_set(type, value);
+	REACH("ovni_mark_set returns");
+}
+/* the die direction: value == 0 never returns */
+void h_ovni_mark_zero_dies(void)
+{
+	int32_t type; int which;
+	REACH("mark with value 0 attempted");
+	if (which == 0) ovni_mark_push(type, 0);
+	else if (which == 1) ovni_mark_pop(type, 0);
+	else ovni_mark_set(type, 0);
+	VASSERT(0, "ovni_mark_push/pop/set must die on value 0");
 }
